@@ -42,6 +42,20 @@ def _case(draw: Any, args: dict) -> dict:
         ]
         start = 4
         n = max(n, 4)
+    elif draw(st.integers(0, 2)) == 0:
+        # a private class joining two unrelated private classes that share method names; the public class derives from the join
+        def ms2() -> list[str]:
+            return draw(st.lists(st.sampled_from(METHODS), min_size=1, max_size=3, unique=True))
+
+        shared = draw(st.sampled_from(METHODS))
+        classes += [
+            {"name": "_Priv0", "private": True, "bases": [], "methods": sorted({shared, *ms2()}), "mod": 0},
+            {"name": "_Priv1", "private": True, "bases": [], "methods": sorted({shared, *ms2()}), "mod": 0},
+            {"name": "_Priv2", "private": True, "bases": ["_Priv0", "_Priv1"] if draw(st.booleans()) else ["_Priv1", "_Priv0"], "methods": [m for m in ms2() if m != shared] if draw(st.booleans()) else [], "mod": 0},
+            {"name": "Pub3", "private": False, "bases": ["_Priv2"], "methods": [m for m in ms2() if m != shared][:1], "mod": 0},
+        ]
+        start = 4
+        n = max(n, 4)
     for i in range(start, n):
         private = draw(st.sampled_from([True, True, False])) if (i < n - 1 or start) else False
         name = ("_Priv" if private else "Pub") + str(i)
